@@ -25,6 +25,7 @@ var injectKinds = []string{
 	"part-nil", "part-idx-neg", "part-idx-big", "part-bytes", "part-aunt", "part-h-wrong", "part-proof-nil",
 	"nrs-neg", "nrs-big", "nrs-step0", "nrs-match", "nrs-match", "nrs-match", "commitstep-bits", "commitstep-total-neg", "hasvote-neg", "hasvote-big", "hasvote-type0",
 	"maj23-garbage", "maj23-type0", "maj23-r-neg", "maj23-r-big", "bits-mismatch", "bits-nil", "bits-huge", "bits-r-neg", "pol-neg", "pol-huge",
+	"vote-r-stream", "vote-r-stream",
 	"raw-empty", "raw-1byte", "raw-trunc", "raw-flip", "raw-random", "raw-lenprefix", "wrong-channel", "unknown-channel",
 }
 
@@ -145,6 +146,35 @@ func injector(w *World, a simrt.Action) bool {
 			v.BlockID = types.BlockID{Hash: bytes.Repeat([]byte{0xee}, int(sel%70)), PartsHeader: types.PartSetHeader{Total: int(sel%5) - 2, Hash: []byte{1}}}
 		}
 		bz = enc(&pbft.VoteMessage{Vote: v})
+	case "vote-r-stream":
+		// one peer, a run of votes for rounds nobody tracks, each rejected (signature over another round):
+		// rejected votes must not make the node keep state for ever more rounds
+		before := rs.Votes.VerifNumRounds()
+		src := int(a.B) % len(w.vals)
+		peer := inc.peers[src]
+		if peer == nil {
+			return false
+		}
+		inc.untrusted++
+		w.Faults.Inc("inject:" + a.S)
+		for i := int64(0); i < 12; i++ {
+			v := w.baseVote(rs, sel+i)
+			v.Height = h
+			v.Round = rs.Votes.Round() + 3 + i*7 + sel%5
+			msg := enc(&pbft.VoteMessage{Vote: v})
+			w.call(inc, "receive-injected", func() {
+				defer func() { recover() }()
+				inc.conR.Receive(pbft.VoteChannel, peer, msg)
+			})
+		}
+		w.Evals.Inc("C08.injection")
+		if rs2 := w.Snapshot(inc); rs2 != nil && rs2.Height == h && inc.Alive() {
+			after := rs2.Votes.VerifNumRounds()
+			if after > before+2 {
+				w.violate("C08", "rejected-votes-grow-state", a.S, "12 rejected votes of one peer for untracked rounds made node %d track %d rounds instead of %d (a peer may open at most two catch-up rounds)", nd.id, after, before)
+			}
+		}
+		return true
 	case "vote-nil":
 		bz = enc(&pbft.VoteMessage{})
 	// ---- proposals
